@@ -144,6 +144,8 @@ def r_block(stmts, ind, out):
             out.append(f"{pad}{r_target(s[1])} = {r_expr(s[2], top=s[1][0] == 'pat')}")
         elif k == "expr":
             out.append(pad + r_expr(s[1]))
+        elif k == "retype":
+            out.append(f"{pad}{s[1]} = 0")
         elif k == "if":
             out.append(f"{pad}if {s[1]}:")
             r_block(s[2], ind + 1, out)
@@ -1218,7 +1220,43 @@ def edited_functions(draw, max_depth=3, size=14, edit_weights=((0, 38), (1, 34),
             break
     if render(fn) == render(base):
         edits = []
+    d = add_retype(rnd, fn)
+    if d:
+        edits.append(d)
     return {"fn": fn, "base": base, "edits": edits}
+
+
+def _mentions(e, x):
+    if isinstance(e, list):
+        if len(e) >= 2 and e[0] in ("v", "f", "i") and e[1] == x:
+            return True
+        return any(_mentions(y, x) for y in e)
+    return False
+
+
+def add_retype(rnd, fn):
+    """With probability 1/3: at the end of the top-level body (before a trailing `return` that does
+    not mention it) one variable holding qubits is re-bound to an int, `x = 0` - the last thing that
+    happens to the name.  Legal exactly when the name holds no live qubit there; it also changes the
+    type the name has at the end of the last basic block, which no linearity verdict may depend on."""
+    if rnd.randrange(3):
+        return None
+    cands = [n for n, ty, mode in fn["params"] if mode != "borrowed" and ty in ("Q", "T", "S2", "SI")]
+    cands += [n for n, ty in fn["locals"].items() if ty in ("Q", "T", "S2", "SI")]
+    body = fn["body"]
+    if not cands or not body:
+        return None
+    x = cands[rnd.randrange(len(cands))]
+    last = body[-1]
+    if last[0] == "return":
+        if _mentions(last, x):
+            return None
+        body.insert(len(body) - 1, ["retype", x])
+    elif falls_through(last):
+        body.append(["retype", x])
+    else:
+        return None
+    return f"retype {x}"
 
 
 def max_depth_of(fn):
